@@ -1610,8 +1610,9 @@ fn main() {
 
     let mut rng = Rng::new(args.seed);
     let scale = if args.thorough { 8 } else { 1 };
+    let part = args.extra.get("part").cloned().unwrap_or_else(|| "both".into());
     // ---------------------------------------------------------------- Part A
-    {
+    if part != "b" {
         let mut cx = Cx { drv: drv_holder.as_mut(), sum: &mut sum, known: known.clone(), tmp: dir.path().join("a"), n: 0, trace: false };
         let _ = std::fs::create_dir_all(&cx.tmp);
         let rich = &lays["rich"];
@@ -1637,7 +1638,7 @@ fn main() {
     }
     // ---------------------------------------------------------------- Part B
     let nfiles = args.extra.get("files").and_then(|s| s.parse().ok()).unwrap_or(if args.thorough { 4000 } else { 260 });
-    let plan = plan_files(&mut rng.fork(), &seeds, &lays, nfiles, args.thorough);
+    let plan = if part == "a" { Vec::new() } else { plan_files(&mut rng.fork(), &seeds, &lays, nfiles, args.thorough) };
     let tb = Instant::now();
     let next = Arc::new(AtomicUsize::new(0));
     let results: Arc<Mutex<Vec<Option<Vec<ApiOutcome>>>>> = Arc::new(Mutex::new(vec![None; plan.len()]));
